@@ -9,6 +9,17 @@ def rand_spd(r, n, kind):
     if kind == "hilbert":
         M = [[float(Fr(1, i + j + 1)) for j in range(n)] for i in range(n)]
         return M
+    if kind == "arrow":
+        # sparse with fill-in: index h couples to every other index, the others are mutually uncoupled (exact zeros in M,
+        # none in its Cholesky factor when h comes first); strictly diagonally dominant, hence SPD
+        h = 0 if r.chance(0.6) else r.below(n)
+        M = [[0.0] * n for _ in range(n)]
+        for j in range(n):
+            if j != h:
+                M[h][j] = M[j][h] = float(r.choice([-3, -2, -1, 1, 2, 3])) * (1.0 if r.chance(0.7) else 0.5 + r.unit())
+                M[j][j] = abs(M[h][j]) + 0.5 + 3 * r.unit()
+        M[h][h] = sum(abs(M[h][j]) for j in range(n)) + 0.5 + 3 * r.unit()
+        return M
     if kind == "graded":
         d = [10.0 ** (-r.range(0, 3) * i / max(1, n - 1)) for i in range(n)]
     elif kind == "cond":
@@ -40,10 +51,17 @@ def gen_cases(rng, tier):
     for i in range(n):
         r = rng.fork()
         dim = 1 + i % 8
-        kind = r.choice(["plain", "plain", "graded", "cond", "cond", "hilbert"])
+        kind = r.choice(["plain", "plain", "graded", "cond", "cond", "hilbert", "arrow"])
         if kind == "hilbert" and dim > 6:
             kind = "cond"
+        if kind == "arrow" and dim < 3:
+            kind = "plain"
         M = rand_spd(r, dim, kind)
+        if i % 5 == 4 and kind in ("plain", "graded"):
+            # homogeneity: the same well-conditioned matrix at a very different overall scale (exact power of two)
+            sc = 2.0 ** r.choice([-70, -60, -40, 40, 60, 70])
+            M = [[v * sc for v in row] for row in M]
+            kind = kind + "-scaled"
         cases.append(dict(n=dim, m=[f2b(v) for row in M for v in row], stability=None, kind=kind))
     return cases
 
@@ -87,12 +105,20 @@ def run(rep, rng, tier, replay=None):
         fi, ii, m = impl_fields(o["f64"]), impl_fields(o["inst"]), parse_model(c, r)
         if fi != ii:
             rep.violation("correspondence", "decompose_for_tropical at T = Inst differs from T = f64", case=c)
+        if fi["tag"] != "ok":
+            dexact = X.det(Mq) if spd else None
+            in_range = dexact is not None and Fr(10) ** -280 < dexact < Fr(10) ** 280     # determinant representable in binary64
+            if spd and kappa < Fr(10) ** 10 and in_range:
+                rep.violation("property", "SPD matrix (kappa %.3g) rejected with %s" % (float(kappa), fi["tag"]), case=c, failing_input=True)
         if fi["tag"] != m["tag"]:
             rep.violation("correspondence", "outcome implementation %s, model %s" % (fi["tag"], m["tag"]), case=c)
             continue
         if fi["tag"] != "ok":
-            if spd and kappa < Fr(10) ** 10:
-                rep.violation("property", "SPD matrix (kappa %.3g) rejected with %s" % (float(kappa), fi["tag"]), case=c, failing_input=True)
+            continue
+        allout = [fi["determinant"]] + fi["inverse"] + fi["q_transposed"] + fi["q_transposed_inverse"]
+        if spd and kappa < Fr(10) ** 10 and not all(math.isfinite(b2f(v)) for v in allout):
+            rep.violation("property", "Ok returned for an SPD matrix (kappa %.3g, n=%d) but the results contain NaN/inf" % (float(kappa), n), case=c, failing_input=True,
+                          what="non-finite decomposition of a well-conditioned SPD matrix")
             continue
         for k in ["determinant", "inverse", "q_transposed", "q_transposed_inverse"]:
             a, b = (fi[k], m[k]) if isinstance(fi[k], list) else ([fi[k]], [m[k]])
@@ -137,5 +163,5 @@ def run(rep, rng, tier, replay=None):
     rep.cov["bit_exact_rate"] = (eq / tot) if tot else None
     rep.cov["skipped_not_spd_or_kappa_above_1e10"] = skipped
     rep.cov["rule"] = ("symmetric matrices n=1..8 (cycling): B diag(d) B^T with small-integer triangular-ish B and d plain / graded / geometric with condition up to ~1e9, Hilbert "
-                       "(n<=6); positive definiteness and kappa_inf decided exactly in rationals; all four results vs the Coq model (no oracle needed; bit-exact rate reported, relation "
+                       "(n<=6), sparse 'arrow' matrices (exact zeros whose Cholesky factor fills in), well-conditioned ones also at overall scales 2^+-40..70; positive definiteness and kappa_inf decided exactly in rationals; all four results vs the Coq model (no oracle needed; bit-exact rate reported, relation "
                        "1e-12) and vs exact linear algebra on the implementation's outputs (tolerance 1e-13*n*kappa). non-trivial = n>=3")
